@@ -93,6 +93,7 @@ def run_pool_case(case):
             except Inconclusive:
                 raise
             except Exception as e:
+                e.__traceback__ = None
                 out['exc'] = e
             if stop is not None and out['exc'] is None:
                 t0 = time.time()
